@@ -15,10 +15,10 @@ From Conductor Require Import Lib.Str Model.ArchiveOut.
 
 Lemma archive_output_tie : forall p,
   decision_code (handle_output_path p) =
-  gen_archive_output_decision (o_given p) (o_exists p) (o_is_dir p) (o_parent_exists p) (o_parent_is_dir p).
+  gen_archive_output_decision (o_given p) (o_exists p) (o_is_dir p) (o_parent_exists p) (o_parent_is_dir p) (o_gen_exists p).
 Proof.
-  intros [g e d pe pd]. unfold handle_output_path, gen_archive_output_decision. cbn [o_given o_exists o_is_dir o_parent_exists o_parent_is_dir].
-  destruct g, e, d, pe, pd; reflexivity.
+  intros [g e d pe pd ge]. unfold handle_output_path, gen_archive_output_decision. cbn [o_given o_exists o_is_dir o_parent_exists o_parent_is_dir o_gen_exists].
+  destruct g, e, d, pe, pd, ge; reflexivity.
 Qed.
 
 Lemma archive_steps_tie :
